@@ -11,6 +11,7 @@ for pid, c in CHECKS.items():
         quick_cmd=f'./check {pid} --tier quick',
         thorough_cmd=f'./check {pid} --tier thorough',
         evidence_file=f'/verif/evidence/{pid}.json',
+        replay_cmd_template=f'./check {pid} --replay {{path}}',
         engine='lean4-proof+correspondence',
         level_claimed=dict(category='proof', text=c['text'], design_ref=c['design_ref']),
         level_note=c['note'],
